@@ -74,7 +74,150 @@ def check_c08(tier, seed, replay=None):
     return v.finish(cov, ['relations are necessary conditions (no optimum oracle at this scale)', 'real oneTBB for *_tbb variants'])
 
 
-CHECKS = {'C01': check_c01, 'C02': check_c02, 'C08': check_c08, 'C09': check_c09}
+def check_c05(tier, seed, replay=None):
+    v = Verdict('C05', tier, seed)
+    bins = build_many([('h_approx', 'plain'), ('h_approx', 'asan')])
+    agg = run_cases(bins[('h_approx', 'plain')], 'c05', seed, T(tier, 1500, 30000), opts=dict(max_n=T(tier, 26, 60)))
+    v.absorb(agg)
+    # descriptors must stay usable with the caller's maps after return: read w[e] through every one under ASan
+    agg2 = run_cases(bins[('h_approx', 'asan')], 'c05', seed + 1000003, T(tier, 120, 2500), opts=dict(max_n=T(tier, 18, 30), deref=1), env=ASAN_ENV, source='h_approx(asan,deref):c05')
+    v.absorb(agg2)
+    cov = base_coverage(agg, 'generated graphs biased to girth > 2k (long cycles with chords, girth-critical bouquets, grids, sparse connected, long theta graphs) plus all general families; '
+                        'k in {1..5, n}; three sequential approximate entry points; checked after return: count, descriptors belong to the caller\'s graph (property-pointer identity), '
+                        'simple cycles, GF(2) rank, returned == sum under caller\'s map; non-trivial = the spanner itself has a cycle (so cycles originate from the exact phase)',
+                        dict(executions=agg.evaluations * 3, cases_with_spanner_cycles=agg.tags.get('spanner_has_cycles', 0), cases_with_non_spanner_edges=agg.tags.get('has_non_spanner_edges', 0),
+                             asan_deref_slice=dict(evaluations=agg2.evaluations, distinct_nontrivial=len(agg2.hashes), sanitizer_reports=len(agg2.sanitizer_reports))))
+    return v.finish(cov, ['spanner cycle-space dimension read through the PARMCB_VERIF accessor (only to count non-trivial cases)', 'weights exactly summable'])
+
+
+def check_c06(tier, seed, replay=None):
+    v = Verdict('C06', tier, seed)
+    bins = build_many([('h_approx', 'plain')])
+    agg = run_cases(bins[('h_approx', 'plain')], 'c06', seed, T(tier, 1500, 30000), opts=dict(max_n=T(tier, 26, 60)))
+    v.absorb(agg)
+    cov = base_coverage(agg, 'as C05 plus adversarial weights (heavy chord closing a light cycle, geometric weights), k = 0 in ~8% of cases; oracle optimum by Horton+Gauss (self-validated); '
+                        'emitted <= (2k-1)*OPT in exact integers, == OPT for k=1, k=0 must throw and emit nothing (counting iterator); non-trivial = cycle space dimension >= 2',
+                        dict(executions=agg.evaluations * 3, executions_above_optimum=agg.tags.get('above_optimum', 0), executions_at_optimum=agg.tags.get('hit_optimum', 0), k0_cases=agg.tags.get('k0_call', 0),
+                             skipped_invalid_basis=agg.tags.get('invalid_basis_skipped(C05)', 0)))
+    return v.finish(cov, ['basis validity is a precondition here (an invalid basis is reported by C05, counted as skipped)', 'Horton+Gauss oracle'])
+
+
+def check_c15(tier, seed, replay=None):
+    v = Verdict('C15', tier, seed)
+    bins = build_many([('h_approx', 'plain')])
+    agg = run_cases(bins[('h_approx', 'plain')], 'c15', seed, T(tier, 2000, 60000), opts=dict(max_n=T(tier, 30, 70)))
+    v.absorb(agg)
+    cov = base_coverage(agg, 'BaseApproxSpannerAlgorithm constructed on generated (graph, k), k in 1..6 and n; spanner, translation map, vertex map and dropped edges read through the PARMCB_VERIF accessors and '
+                        'cross-checked with a spy exact phase that records what it is handed; oracle: bijection, subgraph with input weights, partition, per dropped edge a detour of <= 2k-1 retained edges none heavier (BFS), '
+                        'girth > 2k (BFS); non-trivial = at least one dropped and one retained edge',
+                        dict(cases_girth_exactly_2k_plus_1=agg.tags.get('girth==2k+1(tight)', 0), cases_with_dropped_edges=agg.tags.get('has_dropped_edges', 0)))
+    return v.finish(cov, ['hook accessors return the live members (cross-checked by the spy)'])
+
+
+def check_c12(tier, seed, replay=None):
+    v = Verdict('C12', tier, seed)
+    bins = build_many([('h_parts', 'plain')])
+    agg = run_cases(bins[('h_parts', 'plain')], 'c12', seed, T(tier, 600, 20000), opts=dict(max_n=T(tier, 16, 40)))
+    v.absorb(agg)
+    cov = base_coverage(agg, 'tie-saturated graphs (85% unit/{1,2}/{1,2,3} weights; grids, hypercubes, K_ab, complete graphs), SPTree for every source, weight types double and int; oracle: exact Dijkstra, '
+                        'pred walk, child lists, first(), path symmetry and sub-path optimality over all ordered pairs; non-trivial = graph has a cycle and >= 6 connected ordered pairs',
+                        dict(ordered_pairs_checked=agg.summary.get('ordered_pairs_checked', 0), subpaths_checked=agg.summary.get('subpaths_checked', 0)))
+    return v.finish(cov, ['exact integer Dijkstra oracle'])
+
+
+def check_c13(tier, seed, replay=None):
+    v = Verdict('C13', tier, seed)
+    bins = build_many([('h_parts', 'plain'), ('h_parts', 'asan')])
+    agg = run_cases(bins[('h_parts', 'plain')], 'c13', seed, T(tier, 5000, 500000), opts=dict(max_n=T(tier, 120, 200)))
+    v.absorb(agg)
+    agg2 = run_cases(bins[('h_parts', 'asan')], 'c13', seed + 1000003, T(tier, 300, 6000), opts=dict(max_n=80), env=ASAN_ENV, source='h_parts(asan):c13')
+    v.absorb(agg2)
+    cov = base_coverage(agg, 'all graph families up to 200 vertices plus hubs and caterpillars glued to cycles (repeated degree<=1 clean-up); oracle: vertices valid and distinct, union-find acyclicity of the rest, '
+                        'nothing for forests; non-trivial = cycle space dimension >= 2',
+                        dict(fvs_vertices_emitted=agg.summary.get('fvs_vertices_emitted', 0), asan_slice=dict(evaluations=agg2.evaluations, sanitizer_reports=len(agg2.sanitizer_reports))))
+    return v.finish(cov, ['simple graphs only (the property\'s domain)'])
+
+
+def check_c14(tier, seed, replay=None):
+    v = Verdict('C14', tier, seed)
+    bins = build_many([('h_parts', 'plain')])
+    agg = run_cases(bins[('h_parts', 'plain')], 'c14', seed, T(tier, 800, 20000), opts=dict(max_n=T(tier, 26, 44)))
+    v.absorb(agg)
+    cov = base_coverage(agg, 'tie-rich graphs; Horton, FVS and ISO builders; every candidate walked (closing edge is a non-tree edge, two root paths meeting only at the root, recorded == true weight); '
+                        'FVS and ISO candidates identified by (root, edge) inside Horton; greedy with GF(2) independence over each collection reaches dimension and oracle optimum; non-trivial = dimension >= 2',
+                        dict(candidates_checked=agg.summary.get('candidates_checked', 0)))
+    return v.finish(cov, ['Horton+Gauss oracle (self-validated)'])
+
+
+def check_c16(tier, seed, replay=None):
+    v = Verdict('C16', tier, seed)
+    bins = build_many([('h_parts', 'plain')])
+    agg = run_cases(bins[('h_parts', 'plain')], 'c16', seed, T(tier, 10000, 1000000), opts=dict(max_n=T(tier, 40, 80)))
+    v.absorb(agg)
+    cov = base_coverage(agg, 'all families incl. empty graph, edgeless, forests, many components; half of the graphs built under the scrambling allocator (the index is a pointer-keyed map); oracle: permutation of 0..m-1, '
+                        'mutual inverses, components and dimension by union-find, forest flag <=> index >= dimension, forest edges acyclic and n-c many, copies equal; non-trivial = m >= 2 and a cycle exists',
+                        dict(scrambled_layout_cases=agg.tags.get('scrambled_layout', 0)))
+    return v.finish(cov, [])
+
+
+def check_c17(tier, seed, replay=None):
+    v = Verdict('C17', tier, seed)
+    bins = build_many([('h_vec', 'plain'), ('h_vec', 'asan')])
+    agg = run_cases(bins[('h_vec', 'plain')], 'c17', seed, T(tier, 20000, 2000000))
+    v.absorb(agg)
+    agg2 = run_cases(bins[('h_vec', 'asan')], 'c17', seed + 1000003, T(tier, 2000, 100000), env=ASAN_ENV, source='h_vec(asan):c17')
+    v.absorb(agg2)
+    cov = base_coverage(agg, 'random histories (1-200 operations, pool of 2-8 live vectors, dimension 1-300) of unit/set/copy/move construction, +, +=, v+=v, v=v+v, *, * with std::set, copy/move assignment incl. self, clear; '
+                        'after every operation every live vector is compared with a dense model (strictly increasing coordinates, size()); non-trivial = history of >= 5 operations; distinct by (seed, case, dimension)',
+                        dict(operations=agg.summary.get('operations', 0), per_operation={k[3:]: n for k, n in agg.summary.items() if k.startswith('op:')},
+                             asan_slice=dict(evaluations=agg2.evaluations, operations=agg2.summary.get('operations', 0), sanitizer_reports=len(agg2.sanitizer_reports))))
+    return v.finish(cov, ['SpVecGF2::add is not part of the property and is not exercised'])
+
+
+def check_c18(tier, seed, replay=None):
+    v = Verdict('C18', tier, seed)
+    bins = build_many([('h_vec', 'plain'), ('h_vec', 'asan')])
+    b = bins[('h_vec', 'plain')]
+    aggs = {}
+    aggs['gcd'] = run_cases(b, 'c18gcd', seed, 129 + T(tier, 300, 20000))
+    aggs['inv'] = run_cases(b, 'c18inv', seed, 199 + T(tier, 200, 10000))
+    aggs['prime'] = run_cases(b, 'c18prime', seed, 200 + T(tier, 60, 2000), opts=dict(blocks=200, cpp_blocks=T(tier, 20, 200)))
+    aggs['vec'] = run_cases(b, 'c18vec', seed, T(tier, 6000, 600000))
+    aggs['asan'] = run_cases(bins[('h_vec', 'asan')], 'c18vec', seed + 1000003, T(tier, 1500, 60000), env=ASAN_ENV, source='h_vec(asan):c18vec')
+    run_cases(bins[('h_vec', 'asan')], 'c18gcd', seed + 1000003, 129 + T(tier, 40, 2000), env=ASAN_ENV, source='h_vec(asan):c18gcd', agg=aggs['asan'])
+    total = lib.Agg()
+    for a in aggs.values():
+        v.absorb(a)
+    for k in ('gcd', 'inv', 'prime', 'vec'):
+        a = aggs[k]
+        total.evaluations += a.evaluations; total.hashes |= a.hashes; total.all_hashes |= a.all_hashes; total.tags.update(a.tags); total.samples += a.samples[:2]; total.summary.update(a.summary)
+    cov = base_coverage(total, 'EXHAUSTIVE sub-domains: ext_gcd for all (a,b) in [-64,64]^2 minus (0,0); get_mult_inverse for all p in 2..200 and a in [-3p,3p]; is_prime for all p in 2..199999 (cpp_int on a prefix) - each for '
+                        'int, long long and cpp_int; plus random large operands kept where results are representable (|a|,|b| < 2^31 for long long, < 2^15 for int, up to 200 bits for cpp_int; is_prime up to 1e12 against '
+                        'deterministic Miller-Rabin) and random SpVecFP histories against a dense mod-p model (scalars negative, zero, multiples of p); a case = one row/modulus/block/history; all cases non-trivial',
+                        dict(exhaustive=False, exhaustive_subdomains=['ext_gcd |a|,|b|<=64 (3 types)', 'get_mult_inverse p in 2..200, a in [-3p,3p] (3 types)', 'is_prime 2..199999 (int, long long; cpp_int prefix)'],
+                             ext_gcd_evaluations=total.summary.get('ext_gcd_evaluations', 0), mult_inverse_evaluations=total.summary.get('mult_inverse_evaluations', 0),
+                             is_prime_evaluations=total.summary.get('is_prime_evaluations', 0), spvecfp_operations=total.summary.get('spvecfp_operations', 0),
+                             asan_ubsan_slice=dict(evaluations=aggs['asan'].evaluations, sanitizer_reports=len(aggs['asan'].sanitizer_reports))))
+    return v.finish(cov, ['built-in integer operands restricted to where the mathematical result is representable', 'reference gcd / modular arithmetic in cpp_int and __int128'])
+
+
+def check_c10(tier, seed, replay=None):
+    v = Verdict('C10', tier, seed)
+    bins = build_many([('h_dimacs', 'plain'), ('h_dimacs', 'asan')])
+    agg = run_cases(bins[('h_dimacs', 'plain')], 'c10', seed, T(tier, 20000, 1000000))
+    v.absorb(agg)
+    agg2 = run_cases(bins[('h_dimacs', 'asan')], 'c10', seed + 1000003, T(tier, 3000, 100000), env=ASAN_ENV, source='h_dimacs(asan):c10')
+    v.absorb(agg2)
+    cov = base_coverage(agg, 'generated DIMACS texts fed through fmemopen: c/# comments anywhere (incl. before the problem line, as last line, up to 1000 bytes, containing edge-like text), e/a lines, integer/decimal/omitted '
+                        'weights, with/without trailing newline, last line = comment/edge with weight/edge without weight/problem line, undeclared vertices (0 or > n) must raise; compared edge by edge in file order with '
+                        'strtod of the written token; plus random multigraphs for the three validators; non-trivial = at least one edge line; distinct by text hash',
+                        dict(no_trailing_newline_cases=agg.tags.get('no_trailing_newline', 0), undeclared_vertex_cases=agg.tags.get('undeclared_vertex', 0),
+                             asan_slice=dict(evaluations=agg2.evaluations, sanitizer_reports=len(agg2.sanitizer_reports))))
+    return v.finish(cov, ['lines shorter than the 1024-byte buffer (the property\'s domain)'])
+
+
+CHECKS = {'C01': check_c01, 'C02': check_c02, 'C05': check_c05, 'C06': check_c06, 'C08': check_c08, 'C09': check_c09, 'C10': check_c10,
+          'C12': check_c12, 'C13': check_c13, 'C14': check_c14, 'C15': check_c15, 'C16': check_c16, 'C17': check_c17, 'C18': check_c18}
 
 
 def main():
@@ -106,10 +249,16 @@ def main():
         return 2
 
 
+ALL_BUILDS = [('h_exact', 'plain'), ('h_exact', 'asan'), ('h_approx', 'plain'), ('h_approx', 'asan'), ('h_parts', 'plain'), ('h_parts', 'asan'),
+              ('h_vec', 'plain'), ('h_vec', 'asan'), ('h_dimacs', 'plain'), ('h_dimacs', 'asan')]
+
+
 def build_all():
+    """MANIFEST.setup_cmd: compile every harness flavour for the current tree (the checks would do it lazily anyway)"""
     try:
-        pairs = [('h_exact', 'plain'), ('h_exact', 'asan')]
-        build_many(pairs)
+        os.chdir(lib.VERIF)
+        lib.prune_cache()
+        build_many([p for p in ALL_BUILDS if os.path.exists(os.path.join(lib.VERIF, 'harness', p[0] + '.cpp'))])
         return 0
     except HarnessFailure as e:
         print(str(e)[:4000]); return 2
